@@ -14,7 +14,7 @@ trap cleanup EXIT
 build() { cmake -S "$W" -B "$W/_b" -G Ninja -DCMAKE_BUILD_TYPE=Release >/dev/null 2>&1 && cmake --build "$W/_b" -j 8 >"$D/build.log" 2>&1; }
 demo() {
   if [ -f "$S/demo.cpp" ]; then
-    g++ -std=c++14 -O1 -I"$W/include" -I"$W/src" -I/usr/include/eigen3 "$S/demo.cpp" "$W/_b/lib/libgm2calc.a" -pthread -o "$D/demo" 2>"$D/demo_build.log" || { echo "demo does not build"; cat "$D/demo_build.log" | head -20; return 99; }
+    g++ -std=c++14 -O1 -I"$W/include" -I"$W/src" -I/usr/include/eigen3 "$S/demo.cpp" "$W/_b/lib/libgm2calc.a" -pthread -lquadmath -o "$D/demo" 2>"$D/demo_build.log" || { echo "demo does not build"; cat "$D/demo_build.log" | head -20; return 99; }
     (cd "$W" && timeout 600 "$D/demo" >"$D/demo.out" 2>&1); return $?
   elif [ -f "$S/demo.sh" ]; then
     (cd "$W" && GM2CALC_BUILD_DIR="$W/_b" GM2CALC="$W/_b/bin/gm2calc.x" REPO="$W" timeout 600 bash "$S/demo.sh" "$W" "$W/_b" >"$D/demo.out" 2>&1); return $?
